@@ -48,6 +48,7 @@
        about the caller's assets, not about the script's execution, and it needs no [isel]).
      interp_is_recursive: work-list evaluator = recursive evaluator, every ms and stack, no INoFuel.
    Each clause is additionally checked per run by the oracle (tools/props/c13.py). *)
+From Verif Require Import Spend InterpTxdataModel InterpTxdataProofs InterpTxdataAll InterpTxdataKeys InterpTxdataPkh InterpTxdataWitness.
 From Verif Require Import Exec ExecTrace Ser Ast Types TypeCheck SatSpec TheoremA DenotSpec InterpModel InterpRefine InterpSound InterpWitness InterpComplete InterpDenot InterpMain InterpPolicy InterpGenuine.
 Local Open Scope N_scope.
 
@@ -250,3 +251,247 @@ Example interp_iff_nonvacuous :
     items_small items /\ accepts e (enc ke m) (rev items) = true /\
     interp e ke kp m (astack_of_items items) = IAccept [CsPk [2; 0] toy_sig; CsPk [2; 1] toy_sig].
 Proof. exact iff_nonvacuous. Qed.
+
+(* ------------------------------------------------------------------ from_txdata (src/interpreter/inner.rs)
+   Model: Ms/InterpTxdataModel.v ([from_txdata]); proofs: Proofs/InterpTxdataProofs.v, InterpTxdataAll.v, InterpTxdataKeys.v.
+   FULL STATEMENTS (all output types: bare, pk, pkh, wpkh, wsh, sh, sh-wpkh, sh-wsh, tr key / script path):
+     from_txdata_sound: model = Ok(kind, script, stack, code) -> Spend.v's verify_spend on the same
+       spk / scriptSig / witness is the execution of exactly that script (resp. CHECKSIG on that key) on
+       exactly that stack;  from_txdata_complete_std: every spend verify_spend accepts, whose scriptSig holds
+       only pushes / OP_1 and whose script the library decodes, is not refused;  composition with the
+       evaluator's soundness.
+   PROVED:
+     from_txdata_sound: EVERY arm -- the five script-bearing ones (wsh, sh-wsh, sh, bare, tr script path) as an
+       equation verify_spend = spec_body (the kind's size bounds && execution of that script on that stack), and
+       the five key-only ones (p2pk, p2pkh, p2wpkh, sh-wpkh, tr key path) against the branches of Spend.v's
+       verify_spend that handle them (p2pk / p2pkh are bare scripts for the specification; p2wpkh / sh-wpkh:
+       verify_wpkh; tr key path: e_sigok).  No _partial suffix: every Ok arm of the model is covered.
+     from_txdata_interp_sound: the composition for every script-bearing arm, instantiated with the
+       evaluator's soundness theorem (interp_sound_partial = InterpMain.interp_sound_env); the composition
+       with [interp] only concerns script kinds, so it carries no _partial suffix.
+     from_txdata_interp_pk_sound: the composition with [interp_pk] for EVERY key-only arm (tr key path, p2wpkh,
+       sh-wpkh, p2pkh, p2pk): the P2PKH / P2PK scripts are parsed from the symbolic scriptPubKey and executed in
+       Coq (InterpTxdataKeys.p2pkh_exec, InterpTxdataPkh.parse_p2pkh / parse_p2pk / p2pkh_exec_base / p2pk_exec_base).
+     from_txdata_complete_std_{wsh,shwsh,sh,bare,tr,trkey,wpkh,shwpkh,pkh,pk}: one theorem per arm, EVERY arm
+       (the hypotheses differ per arm -- which element must decode / parse --, hence a family, not one statement).
+     No theorem about from_txdata carries a _partial suffix any more.
+   Taproot leaf version: from_txdata asks rust-bitcoin for the commitment of the control block only and never
+   tests that the leaf version is 0xc0; the specification's [co] includes that test.  The equation keeps
+   [co sb cb] as a factor ([cbok]); the composition assumes [f_commit fe sb cb = true -> co sb cb = true], i.e.
+   that a control block whose commitment verifies carries leaf version 0xc0 (true of every output a descriptor
+   builds; for another leaf version consensus does not run the script at all). *)
+(* EVERY arm of from_txdata (InterpTxdataKeys.sound_statement spells the ten cases out):
+     Script(sb, t):   code = Some sb, verify_spend = spec_body e t ssig sb stack cbok   (cbok: taproot commitment)
+     PublicKey(k, Tr):     code = None, witness = [sg], stack = [sg], verify_spend = e_sigok e k sg
+     PublicKey(k, Wpkh):   code = P2PKH script of hash160 k, witness = stack ++ [k] (bottom first),
+                           verify_spend = wpkh_body e k stack (exactly one item; that script on [k; sig], witness-v0)
+     PublicKey(k, ShWpkh): the same && scriptSig size bound
+     PublicKey(k, Pkh):    code = spk = P2PKH script of hash160 k, verify_spend = spk executed on k :: stack
+     PublicKey(k, Pk):     code = spk, spk is the P2PK script of k, verify_spend = spk executed on stack *)
+Theorem from_txdata_sound :
+  forall e fe co spk ssig wit i st code,
+    from_txdata e fe spk ssig wit = FOk i st code -> sound_statement e fe co spk ssig wit i st code.
+Proof. exact from_txdata_sound_every_arm. Qed.
+Print Assumptions from_txdata_sound.
+
+(* the script-bearing arms on their own *)
+Theorem from_txdata_sound_script :
+  forall e fe co spk ssig wit sb t st code,
+    from_txdata e fe spk ssig wit = FOk (InScript sb t) st code ->
+    code = Some sb /\
+    exists cbok, (t = StTr -> exists cb, hd_error (rev wit) = Some cb /\ f_commit fe sb cb = true /\ cbok = co sb cb) /\
+                 verify_spend e co spk ssig wit = spec_body e t ssig sb (map conc st) cbok.
+Proof. exact from_txdata_sound_all. Qed.
+Print Assumptions from_txdata_sound_script.
+
+(* key-only kinds composed with the evaluator model for key-only outputs ([interp_pk]), EVERY key-only arm:
+   the model answers Ok(PublicKey(k, t)), interp_pk accepts on the stack handed over; except for the taproot key
+   path the key must be acceptable to the Script rules ([e_keyok]) and the scriptSig within the size bound; for
+   the witness-v0 kinds the key has 33 bytes  =>  verify_spend accepts *)
+Theorem from_txdata_interp_pk_sound :
+  forall e fe co spk ssig wit k t st code cs,
+    from_txdata e fe spk ssig wit = FOk (InPk k t) st code ->
+    interp_pk e k st = IAccept cs ->
+    (t <> PtTr -> e_keyok e k = true /\ N.leb (blen ssig) 1650 = true) ->
+    (t = PtWpkh \/ t = PtShWpkh -> N.eqb (blen k) 33 = true) ->
+    verify_spend e co spk ssig wit = true.
+Proof. exact from_txdata_interp_pk_sound_all. Qed.
+Print Assumptions from_txdata_interp_pk_sound.
+
+Theorem from_txdata_interp_pk_sound_trkey :
+  forall e fe co spk ssig wit k st code cs,
+    from_txdata e fe spk ssig wit = FOk (InPk k PtTr) st code ->
+    interp_pk e k st = IAccept cs ->
+    verify_spend e co spk ssig wit = true.
+Proof. exact from_txdata_interp_pk_trkey. Qed.
+Print Assumptions from_txdata_interp_pk_sound_trkey.
+
+Theorem from_txdata_interp_pk_sound_wpkh :
+  forall e fe co spk ssig wit k t st code cs,
+    from_txdata e fe spk ssig wit = FOk (InPk k t) st code -> t = PtWpkh \/ t = PtShWpkh ->
+    interp_pk e k st = IAccept cs ->
+    N.eqb (blen k) 33 = true -> e_keyok e k = true -> N.leb (blen ssig) 1650 = true ->
+    verify_spend e co spk ssig wit = true.
+Proof. exact from_txdata_interp_pk_wpkh. Qed.
+Print Assumptions from_txdata_interp_pk_sound_wpkh.
+
+(* completeness, key-only arms (all five) *)
+Theorem from_txdata_complete_std_pkh :
+  forall e fe co spk ssig wit h k r c,
+    spk_is_p2pkh spk = Some h ->
+    ssig_stack_of ssig = Some (EPush k :: r) -> f_pk fe k = Some c ->
+    verify_spend e co spk ssig wit = true ->
+    from_txdata e fe spk ssig wit = FOk (InPk k PtPkh) r (Some spk).
+Proof. exact from_txdata_complete_pkh. Qed.
+Print Assumptions from_txdata_complete_std_pkh.
+
+Theorem from_txdata_complete_std_trkey :
+  forall e fe co spk ssig wit k sg,
+    spk_is_p2tr spk = Some k -> wit = [sg] ->
+    verify_spend e co spk ssig wit = true -> f_xonly fe k = true ->
+    from_txdata e fe spk ssig wit = FOk (InPk k PtTr) [elem_of sg] None.
+Proof. exact from_txdata_complete_trkey. Qed.
+Print Assumptions from_txdata_complete_std_trkey.
+
+Theorem from_txdata_complete_std_wpkh :
+  forall e fe co spk ssig wit h,
+    spk_is_p2wpkh spk = Some h ->
+    verify_spend e co spk ssig wit = true ->
+    (forall k, hd_error (rev wit) = Some k -> f_pk fe k = Some true) ->
+    exists k sg, wit = [sg; k] /\
+                 from_txdata e fe spk ssig wit = FOk (InPk k PtWpkh) [elem_of sg] (Some (p2pkh_bytes (e_hash160 e k))).
+Proof. exact from_txdata_complete_wpkh. Qed.
+Print Assumptions from_txdata_complete_std_wpkh.
+
+Theorem from_txdata_complete_std_shwpkh :
+  forall e fe co spk ssig wit h el r kh,
+    spk_is_p2sh spk = Some h ->
+    ssig_stack_of ssig = Some (el :: r) -> spk_is_p2wpkh (conc el) = Some kh ->
+    verify_spend e co spk ssig wit = true ->
+    (forall k, hd_error (rev wit) = Some k -> f_pk fe k = Some true) ->
+    exists k sg, wit = [sg; k] /\
+                 from_txdata e fe spk ssig wit = FOk (InPk k PtShWpkh) [elem_of sg] (Some (p2pkh_bytes (e_hash160 e k))).
+Proof. exact from_txdata_complete_shwpkh. Qed.
+Print Assumptions from_txdata_complete_std_shwpkh.
+
+Theorem from_txdata_complete_std_pk :
+  forall e fe co spk ssig wit k st c,
+    spk_is_p2pk spk = Some k -> ssig_stack_of ssig = Some st ->
+    verify_spend e co spk ssig wit = true -> f_pk fe k = Some c ->
+    from_txdata e fe spk ssig wit = FOk (InPk k PtPk) st (Some spk).
+Proof. exact from_txdata_complete_pk. Qed.
+Print Assumptions from_txdata_complete_std_pk.
+
+(* the same, arm by arm, with the body spelled out *)
+Theorem from_txdata_sound_wsh_eq :
+  forall e fe co spk ssig wit sb st code,
+    from_txdata e fe spk ssig wit = FOk (InScript sb StWsh) st code ->
+    code = Some sb /\ verify_spend e co spk ssig wit = wsh_body e sb (map conc st).
+Proof. exact from_txdata_sound_wsh. Qed.
+Print Assumptions from_txdata_sound_wsh_eq.
+
+Theorem from_txdata_sound_tr_eq :
+  forall e fe co spk ssig wit sb st code,
+    from_txdata e fe spk ssig wit = FOk (InScript sb StTr) st code ->
+    exists cb, rev wit = cb :: sb :: map conc st /\ f_commit fe sb cb = true /\
+               verify_spend e co spk ssig wit = (co sb cb && tr_body e sb (map conc st)).
+Proof. exact from_txdata_sound_tr. Qed.
+Print Assumptions from_txdata_sound_tr_eq.
+
+(* completeness, one theorem per script-bearing arm (with the key-only arms above: from_txdata_complete_std_*,
+   every arm).  Common shape: the specification accepts + the scriptSig lexes into pushes / OP_1
+   ([ssig_stack_of ssig = Some ..]; see from_txdata_opn_expected_push for why this is needed) + the library
+   decodes the script element in the arm's context (+ taproot: keys / control block parse, commitment checks
+   agree)  =>  the model answers Ok with that script, the rest of the stack and the script as script code. *)
+Theorem from_txdata_complete_std_wsh :
+  forall e fe co spk ssig wit prog,
+    spk_is_p2wsh spk = Some prog ->
+    verify_spend e co spk ssig wit = true ->
+    (forall sb, hd_error (rev wit) = Some sb -> f_dec fe DSegv0 sb = true) ->
+    exists sb st, from_txdata e fe spk ssig wit = FOk (InScript sb StWsh) st (Some sb) /\ rev wit = sb :: map conc st.
+Proof. exact from_txdata_complete_wsh. Qed.
+Print Assumptions from_txdata_complete_std_wsh.
+
+Theorem from_txdata_complete_std_shwsh :
+  forall e fe co spk ssig wit h el r prog,
+    spk_is_p2sh spk = Some h ->
+    ssig_stack_of ssig = Some (el :: r) -> spk_is_p2wsh (conc el) = Some prog ->
+    verify_spend e co spk ssig wit = true ->
+    (forall sb, hd_error (rev wit) = Some sb -> f_dec fe DSegv0 sb = true) ->
+    exists sb st, from_txdata e fe spk ssig wit = FOk (InScript sb StShWsh) st (Some sb) /\ rev wit = sb :: map conc st.
+Proof. exact from_txdata_complete_shwsh. Qed.
+Print Assumptions from_txdata_complete_std_shwsh.
+
+Theorem from_txdata_complete_std_sh :
+  forall e fe co spk ssig wit h el r,
+    spk_is_p2sh spk = Some h ->
+    ssig_stack_of ssig = Some (el :: r) -> spk_is_p2wsh (conc el) = None -> spk_is_p2wpkh (conc el) = None ->
+    verify_spend e co spk ssig wit = true ->
+    f_dec fe DLegacy (conc el) = true ->
+    from_txdata e fe spk ssig wit = FOk (InScript (conc el) StSh) r (Some (conc el)).
+Proof. exact from_txdata_complete_sh. Qed.
+Print Assumptions from_txdata_complete_std_sh.
+
+Theorem from_txdata_complete_std_bare :
+  forall e fe co spk ssig wit st,
+    spk_is_p2pk spk = None -> spk_is_p2pkh spk = None -> spk_is_p2wpkh spk = None -> spk_is_p2wsh spk = None ->
+    spk_is_p2tr spk = None -> spk_is_p2sh spk = None ->
+    ssig_stack_of ssig = Some st ->
+    verify_spend e co spk ssig wit = true ->
+    f_dec fe DBare spk = true ->
+    from_txdata e fe spk ssig wit = FOk (InScript spk StBare) st (Some spk).
+Proof. exact from_txdata_complete_bare. Qed.
+Print Assumptions from_txdata_complete_std_bare.
+
+Theorem from_txdata_complete_std_tr :
+  forall e fe co spk ssig wit k cb sb items,
+    spk_is_p2tr spk = Some k -> rev wit = cb :: sb :: items ->
+    verify_spend e co spk ssig wit = true ->
+    f_xonly fe k = true -> cb_decode_ok fe cb = true -> f_dec fe DTap sb = true ->
+    (co sb cb = true -> f_commit fe sb cb = true) ->
+    exists st, from_txdata e fe spk ssig wit = FOk (InScript sb StTr) st (Some sb) /\ items = map conc st.
+Proof. exact from_txdata_complete_tr. Qed.
+Print Assumptions from_txdata_complete_std_tr.
+
+(* model of from_txdata answers Ok(Script ..) and the evaluator model accepts the decoded miniscript on the
+   stack it was handed (hypotheses of interp_sound_partial, under the kind's signature version) and the kind's
+   size bounds hold  =>  the specification's verify_spend accepts.  Every script-bearing output type. *)
+Theorem from_txdata_interp_sound :
+  forall e fe co ke kp spk ssig wit sb t st code (m : ms) (ty0 : ty) (cs : list constr),
+    from_txdata e fe spk ssig wit = FOk (InScript sb t) st code ->
+    parse_script sb = Some (enc ke m) ->
+    keys_ok (with_sv e (sv_of t)) ke kp ->
+    type_of m = ROk ty0 -> c_base (t_corr ty0) = BB -> iwf (with_sv e (sv_of t)) m -> icover m ->
+    items_small (map conc st) ->
+    interp (with_sv e (sv_of t)) ke kp m st = IAccept cs ->
+    std_bounds t ssig sb (enc ke m) (map conc st) = true ->
+    (forall cb, f_commit fe sb cb = true -> co sb cb = true) ->
+    verify_spend e co spk ssig wit = true.
+Proof. exact from_txdata_interp_sound_all. Qed.
+Print Assumptions from_txdata_interp_sound.
+
+(* non-vacuity of from_txdata_interp_sound: every hypothesis holds (bare and_v(v:pk(A),after(10)), scriptSig =
+   the push of a signature) and the conclusion is true *)
+Example from_txdata_interp_sound_nonvacuous :
+  from_txdata nv_env ftx_toy_fenv nv_spk nv_ssig [] = FOk (InScript nv_spk StBare) [EPush toy_sig] (Some nv_spk) /\
+  parse_script nv_spk = Some (enc toy_ke m_after) /\
+  keys_ok (with_sv nv_env (sv_of StBare)) toy_ke toy_kp /\
+  (exists t, type_of m_after = ROk t /\ c_base (t_corr t) = BB) /\
+  iwf (with_sv nv_env (sv_of StBare)) m_after /\ icover m_after /\
+  items_small (map conc [EPush toy_sig]) /\
+  interp (with_sv nv_env (sv_of StBare)) toy_ke toy_kp m_after [EPush toy_sig] = IAccept [CsPk [2; 0] toy_sig; CsAfter 10] /\
+  std_bounds StBare nv_ssig nv_spk (enc toy_ke m_after) (map conc [EPush toy_sig]) = true /\
+  (forall co, verify_spend nv_env co nv_spk nv_ssig [] = true).
+Proof. exact ftx_interp_nonvacuous. Qed.
+
+Example from_txdata_nonvacuous :
+  from_txdata ftx_toy_env ftx_toy_fenv ftx_toy_spk [] [[5; 5]; [81]]
+  = FOk (InScript [81] StWsh) [EPush [5; 5]] (Some [81]).
+Proof. exact ftx_nonvacuous. Qed.
+
+(* completeness is not over-claimed: OP_2 in a scriptSig is push-only for the specification, ExpectedPush here *)
+Example from_txdata_opn_expected_push :
+  pushonly_stack [INum 2] [] = Some [[2]] /\ parse_script [82] = Some [INum 2] /\
+  from_txdata ftx_toy_env ftx_toy_fenv (169 :: 20 :: repeat 9 20 ++ [135]) [82] [] = FErr FExpectedPush.
+Proof. exact ftx_opn_expected_push. Qed.
+
